@@ -11,11 +11,14 @@
     jsonb_alias       C10  hostile HAS_OFF end offset 0: k aliasing children per level, nested (A35);
                            containers of 70 000 … 200 000 entries without any HAS_OFF (fix 10: linear offsets)
 
-  Canonical text of a decoded value: `~` nil/null, `T`/`F`, `s<hex>` string, `[a,b]`, `{<hexkey>:v,…}` sorted by key,
-  numbers `n+<mant>e<exp>` / `n-<mant>e<exp>` meaning ±mant·10000^exp exactly (zero is `n+0e0`), `nNaN`, `n+Inf`, `n-Inf`.
-  The Go side cannot print an exact value from a float64: it receives the expected numbers of the case
-  (argument `hints`, in canonical traversal order) and prints hint k for the k-th float64 leaf iff math/big
-  says the float equals the hint's value under the C05 tolerance; otherwise it prints the float's bits.
+  Canonical text of a decoded value: `GoVal.show` ↔ `core.CanonVal` — `~` nil/null, `T`/`F`, `s<hex>` string, `[a,b]`,
+  `{<hexkey>:v,…}` sorted by key, `i<decimal>` Go ints, `d<16 hex digits>` float64 as IEEE-754 BITS.  Numbers are compared
+  bit for bit (no tolerance; +0 ≠ −0; NaN = Go's math.NaN() pattern): the model applies `Spec.parseFloatRef` (the
+  executable reference with ParseFloat's contract: correctly rounded `Txt.f64OfRat`) to the decimal text it builds, the Go
+  side prints `math.Float64bits` of what pgread returned, the spec prints the bits of the double nearest to the exact
+  value.  Kinds: in the families with a SPEC column a Go `int` (DecodeNumeric's `int(0)` for a value without digits) is
+  read as the float64 of the same value on both sides (`Spec.numAsF64` / `foldInts`), because the property speaks of the
+  decoded number; the `*_raw` families (spec silent) compare model and implementation WITH kinds (`i0` vs `d000…`).
 -/
 import Driver.Family
 import PgVerif.Model.JsonbView
@@ -26,55 +29,26 @@ open PgVerif Driver
 
 /-! ### canonical text -/
 
-def numText : Spec.NumView → String
-  | .nan => "NaN" | .pinf => "+Inf" | .ninf => "-Inf"
-  | .exact neg mant exp =>
-    if mant == 0 then "+0e0" else (if neg then "-" else "+") ++ toString mant ++ "e" ++ toString exp
+/-- the driver's instance of the model's ParseFloat parameter -/
+def pf : Model.ParseFloat := Spec.parseFloatRef
 
-def showNum (v : Option Spec.NumView) : String :=
-  match v with
-  | some v => "n" ++ numText v
-  | none => "~"
+/-- a `DecodeNumeric` result: `fold` = read a Go int as the float64 of the same value -/
+def showNumRes (fold : Bool) (r : Model.NumRes) : String :=
+  let g := r.toGo pf
+  (if fold then Spec.numAsF64 g else g).show
 
-partial def sortView : Spec.JView → Spec.JView
-  | .arr xs => .arr (xs.map sortView)
-  | .obj kvs => .obj ((kvs.map fun (k, v) => (k, sortView v)).mergeSort fun a b => bytesLe a.1 b.1)
-  | v => v
+def showJV (fold : Bool) (v : Model.JV) : String :=
+  let g := v.toGo pf
+  (if fold then Spec.numAsF64 g else g).show
 
-mutual
-def canonView : Spec.JView → String
-  | .null => "~"
-  | .bool b => if b then "T" else "F"
-  | .num v => "n" ++ numText v
-  | .str s => "s" ++ hexOf s
-  | .arr xs => "[" ++ canonViews xs ++ "]"
-  | .obj kvs => "{" ++ canonViewKvs kvs ++ "}"
-def canonViews : List Spec.JView → String
-  | [] => ""
-  | [x] => canonView x
-  | x :: xs => canonView x ++ "," ++ canonViews xs
-def canonViewKvs : List (Bytes × Spec.JView) → String
-  | [] => ""
-  | [(k, v)] => hexOf k ++ ":" ++ canonView v
-  | (k, v) :: rest => hexOf k ++ ":" ++ canonView v ++ "," ++ canonViewKvs rest
-end
+def showNumView (v : Spec.NumView) : String := v.toGo.show
 
-def showView (v : Spec.JView) : String := canonView (sortView v)
+def showView (v : Spec.JView) : String := v.toGo.show
 
-/-- the numbers of a (sorted) view in canonical traversal order -/
-partial def numsOf : Spec.JView → List Spec.NumView
-  | .num v => [v]
-  | .arr xs => xs.flatMap numsOf
-  | .obj kvs => kvs.flatMap fun kv => numsOf kv.2
-  | _ => []
-
-def hintsOf (v : Spec.JView) : String :=
-  let ns := numsOf (sortView v)
-  if ns.isEmpty then "-" else joinWith "," (ns.map numText)
-
-def showRes : Model.DecodeRes → String
-  | .val v => showView v.toView
-  | .raw s => "s" ++ hexOf s      -- the fallback is observable only as a Go string
+/-- DecodeType(jsonb): a decoded document or the raw fallback (observable only as a Go string) -/
+def resGo : Model.DecodeRes → GoVal
+  | .val v => v.toGo pf
+  | .raw s => .str s
 
 def okOrPanic {α} : M α → String
   | .ok _ => "ok"
@@ -103,16 +77,15 @@ def numhdrGen (_seed idx _size : Nat) : Case :=
   let hs := (List.range 256).map (· + 256 * (idx % 256))
   let cases := hs.flatMap fun h => (tailsOf h).map fun t => (h, t)
   let blobs := cases.map fun (h, t) => wordsBytes (h :: t)
-  let model := joinWith ";" (blobs.map fun b => showM (fun r => showNum r.toView) (Model.decodeNumeric b))
+  let model := joinWith ";" (blobs.map fun b => showM (showNumRes true) (Model.decodeNumeric b))
   let views := cases.map fun (h, t) => readerView h t
-  let spec := joinWith ";" (views.map fun v => "n" ++ numText v)
-  { tags := ["nt", s!"class={(idx % 256) / 64}"], model, spec,
-    args := [joinWith "," (blobs.map hexOf), joinWith "," (views.map numText)] }
+  let spec := joinWith ";" (views.map showNumView)
+  { tags := ["nt", s!"class={(idx % 256) / 64}"], model, spec, args := [joinWith "," (blobs.map hexOf)] }
 
 def numhdrEval (args : List String) : String :=
   match args with
   | blobs :: _ =>
-    joinWith ";" ((blobs.splitOn ",").map fun b => showM (fun r => showNum r.toView) (Model.decodeNumeric (unhex b)))
+    joinWith ";" ((blobs.splitOn ",").map fun b => showM (showNumRes true) (Model.decodeNumeric (unhex b)))
   | _ => "bad-args"
 
 def numhdr : Family := { name := "numhdr", gen := numhdrGen, eval := numhdrEval, fixed := 256 }
@@ -135,7 +108,20 @@ def boundaryNums : List (Numeric × HeaderForm) :=
   both (.fin false 0 4 [1, 1]) ++               -- 1.0001
   both (.fin false 3 20 [1234, 5678, 9012, 3456, 7890, 1234, 5678, 9012]) ++
   [(.nan, .short), (.pinf, .short), (.ninf, .short),
-   (.fin false 100 0 [1], .long), (.fin false 0 64 [1], .long), (.fin true (-16) 40 [9999, 9999], .long)]
+   (.fin false 100 0 [1], .long), (.fin false 0 64 [1], .long), (.fin true (-16) 40 [9999, 9999], .long)] ++
+  -- R7: a stored negative zero (PostgreSQL never writes it; numeric_out would print -0): −0.0, bit for bit
+  both (.fin true 0 0 [0]) ++ both (.fin true (-3) 12 [0, 0]) ++
+  -- 2^53 + 1: the nearest double is 2^53 (jsonb 9007199254740993 → …992)
+  both (.fin false 3 0 [9007, 1992, 5474, 993]) ++ both (.fin true 3 0 [9007, 1992, 5474, 995]) ++
+  -- the edges of the double range (long form only: weights beyond the short header's −64..63)
+  [(.fin false 77 0 [1], .long),            -- 10^308: finite
+   (.fin false 77 0 [2], .long),            -- 2·10^308: +Inf
+   (.fin true 77 0 [1, 7976, 9313, 4862, 3157, 815], .long),  -- just above −MaxFloat64: −Inf or −Max by correct rounding
+   (.fin false (-81) 0 [5], .long),         -- 5·10^−324: the least subnormal
+   (.fin false (-81) 0 [2], .long),         -- 2·10^−324: rounds to 0
+   (.fin false (-77) 0 [2225, 738, 5850, 7201], .long),        -- around the least normal 2.2250738585072014e-308
+   (.fin false 32767 0 [1], .long),         -- int16 extremes of n_weight
+   (.fin true (-32768) 16383 [9999], .long)]
 
 /-- the blob handed to the entry point `via`, for numeric payload `p` -/
 def numericBlob (via : Nat) (p : Bytes) (padStr : Nat) : Bytes :=
@@ -152,9 +138,9 @@ def numericBlob (via : Nat) (p : Bytes) (padStr : Nat) : Bytes :=
 
 def numericModel (via : Nat) (blob : Bytes) : String :=
   match via with
-  | 0 => showM (fun r => showNum r.toView) (Model.decodeNumeric blob)
-  | 1 => showM (fun r => showNum r.toView) (Model.decodeTypeNumeric blob)
-  | _ => showM (fun v => showView v.toView) (Model.parseJSONB blob)
+  | 0 => showM (showNumRes true) (Model.decodeNumeric blob)
+  | 1 => showM (showNumRes true) (Model.decodeTypeNumeric blob)
+  | _ => showM (showJV true) (Model.parseJSONB blob)
 
 /-- family `numround`: "exactly the nearest double for ordinary values of up to 12 significant digits".  At most
 three base-10000 digit groups (≤ 12 significant digits), and the decimal exponent of the last group swept
@@ -188,7 +174,7 @@ def numericGenWith (pick : Nat → Nat → Gen Spec.Numeric) (seed idx size : Na
   let blob := numericBlob via p padStr
   let v := n.view
   let spec := if via == 3 then showView (.arr [.str (List.replicate padStr 0x78), .num v])
-              else "n" ++ numText v
+              else showNumView v
   let kind := match n with
     | .fin _ w _ ds => [s!"form={if form == .short then "short" else "long"}", s!"nd={ds.length}",
                         (if w < 0 then "w<0" else "w>=0")]
@@ -197,8 +183,11 @@ def numericGenWith (pick : Nat → Nat → Gen Spec.Numeric) (seed idx size : Na
     | .fin _ w _ ds => (if form == .short && w < 0 && !ds.isEmpty then ["kf:A18"] else []) ++
                        (if form == .long then ["kf:A20"] else [])
     | _ => ["kf:A19"]
-  { tags := ["nt", s!"via={via}"] ++ kind ++ kf, model := numericModel via blob, spec,
-    args := [toString via, hexRle blob, numText v] }
+  let digits12 := match n with
+    | .fin _ _ _ ds => if ds.length ≤ 3 then ["sig<=12"] else ["sig>12"]
+    | _ => []
+  { tags := ["nt", s!"via={via}"] ++ kind ++ digits12 ++ kf, model := numericModel via blob, spec,
+    args := [toString via, hexRle blob] }
 
 def numericEval (args : List String) : String :=
   match args with
@@ -216,11 +205,11 @@ def numround : Family :=
 
 /-! ### jsonb -/
 
-def jsonbModel (via : Nat) (blob : Bytes) : M Spec.JView :=
-  if via == 0 then (Model.parseJSONB blob).map (·.toView)
-  else (Model.decodeTypeJSONB blob).map fun r => match r with
-    | .val v => v.toView
-    | .raw s => .str s
+def jsonbModel (via : Nat) (blob : Bytes) : M GoVal :=
+  if via == 0 then (Model.parseJSONB blob).map (·.toGo pf)
+  else (Model.decodeTypeJSONB blob).map resGo
+
+def showFold (g : GoVal) : String := (Spec.numAsF64 g).show
 
 def jsonbGen (seed idx size : Nat) : Case :=
   let nb := Gen.boundaryDocs.length
@@ -234,8 +223,6 @@ def jsonbGen (seed idx size : Nat) : Case :=
   let view := j.view
   let st := Gen.docStats j
   let m := jsonbModel via blob
-  let modelHints := match m with | .ok v => hintsOf v | .error _ => "-"
-  let specHints := hintsOf view
   let root := match j with | .arr _ => "arr" | .obj _ => "obj" | _ => "scalar"
   let tags := ["nt", s!"via={via}", s!"root={root}", s!"depth={st.depth}"] ++
     (if st.xk then ["xkey"] else []) ++ (if st.xv then ["xval"] else []) ++
@@ -243,12 +230,11 @@ def jsonbGen (seed idx size : Nat) : Case :=
     (if st.empty then ["empty"] else []) ++ (if st.nums > 0 then ["nums"] else []) ++
     (if st.xv then ["kf:A21"] else []) ++ (if st.empty then ["kf:A22"] else []) ++
     (if st.big then ["big"] else [])
-  { tags, model := showM showView m, spec := showView view,
-    args := [toString via, hexRle blob, specHints] ++ (if modelHints == specHints then [] else [modelHints]) }
+  { tags, model := showM showFold m, spec := showView view, args := [toString via, hexRle blob] }
 
 def jsonbEval (args : List String) : String :=
   match args with
-  | via :: blob :: _ => showM showView (jsonbModel via.toNat! (unhex blob))
+  | via :: blob :: _ => showM showFold (jsonbModel via.toNat! (unhex blob))
   | _ => "bad-args"
 
 def jsonb : Family := { name := "jsonb", gen := jsonbGen, eval := jsonbEval, fixed := 2 * Gen.boundaryDocs.length }
@@ -328,25 +314,24 @@ def jsonbMalformed : Family :=
 
 /-! ### value-level correspondence on malformed input: the spec is silent, model and implementation must agree -/
 
-def rawModel (via : Nat) (blob : Bytes) : M Spec.JView :=
+def rawModel (via : Nat) (blob : Bytes) : M GoVal :=
   match via with
-  | 0 => (Model.decodeNumeric blob).map fun r => (Model.JV.ofNum r).toView
-  | 1 => (Model.decodeTypeNumeric blob).map fun r => (Model.JV.ofNum r).toView
+  | 0 => (Model.decodeNumeric blob).map (·.toGo pf)
+  | 1 => (Model.decodeTypeNumeric blob).map (·.toGo pf)
   | 2 => jsonbModel 0 blob
   | _ => jsonbModel 1 blob
 
 def rawCase (via : Nat) (blob : Bytes) : Case :=
   let m := rawModel via blob
-  let hints := match m with | .ok v => hintsOf v | .error _ => "-"
   let kind := match m with
-    | .ok .null => "res=nil" | .ok (.str _) => "res=str" | .ok (.num _) => "res=num"
+    | .ok .nil => "res=nil" | .ok (.str _) => "res=str" | .ok (.f64 _) => "res=f64" | .ok (.int _) => "res=int"
     | .ok _ => "res=other" | .error _ => "res=fault"
-  { tags := [s!"via={via}", kind] ++ (match m with | .ok .null => [] | _ => ["nt"]),
-    model := showM showView m, spec := "-", args := [toString via, hexRle blob, hints] }
+  { tags := [s!"via={via}", kind] ++ (match m with | .ok .nil => [] | _ => ["nt"]),
+    model := showM GoVal.show m, spec := "-", args := [toString via, hexRle blob] }
 
 def rawEval (args : List String) : String :=
   match args with
-  | via :: blob :: _ => showM showView (rawModel via.toNat! (unhex blob))
+  | via :: blob :: _ => showM GoVal.show (rawModel via.toNat! (unhex blob))
   | _ => "bad-args"
 
 def numericRaw : Family :=
@@ -375,6 +360,13 @@ def flatHostile (isObj : Bool) (n : Nat) : Bytes :=
   le 4 (n + (if isObj then 0x20000000 else 0x40000000)) ++
     (List.replicate (if isObj then 2 * n else n) (le 4 (Spec.mkEntry 4 false 1))).flatten
 
+/-- `d` nested one-element arrays around `[]`: per level the header `01 00 00 40` and one container JEntry -/
+def deepDoc : Nat → Bytes
+  | 0 => le 4 0x40000000
+  | d+1 =>
+    let inner := deepDoc d
+    le 4 (1 + 0x40000000) ++ le 4 (Spec.mkEntry 5 false inner.length) ++ inner
+
 def aliasGen (_seed idx _size : Nat) : Case :=
   if idx < 24 then
     let (k, d) := [(2, 3), (2, 8), (3, 6), (2, 16), (2, 24), (4, 12), (2, 32), (8, 10), (2, 48), (2, 200), (3, 400), (8, 1000)].getD (idx % 12) (2, 3)
@@ -382,13 +374,22 @@ def aliasGen (_seed idx _size : Nat) : Case :=
     let blob := aliasDoc k d
     { tags := [s!"k={k}", s!"depth={d}", s!"via={via}"], model := malformedModel via blob, spec := "ok",
       args := [toString via, hexRle blob] }
-  else
+  else if idx < 30 then
     let (isObj, n) := [(false, 70000), (false, 200000), (true, 100000)].getD ((idx - 24) % 3) (false, 70000)
     let via := 2 + ((idx - 24) / 3) % 2
     let blob := flatHostile isObj n
     { tags := [s!"flat={if isObj then "obj" else "arr"}", s!"n={n}", s!"via={via}"], model := malformedModel via blob,
       spec := "ok", args := [toString via, hexRle blob] }
+  else
+    -- R7 (review C06 F1): recursion depth.  ParseJSONB → decodeJEntry → ParseJSONB recurses once per nesting level with no
+    -- depth limit (8 input bytes per level).  Depths 4 000 and 8 000 (32 / 64 KiB); the model is total at any depth, the Go
+    -- stack grows ~272 bytes per level (a 256 KiB input — the C10 quantifier — nests at most 32 767 levels ≈ 9 MB of
+    -- goroutine stack, far below Go's 1 GB limit; ≈ 30 MB of input would be needed to exhaust it).
+    let d := [4000, 8000].getD ((idx - 30) % 2) 4000
+    let via := 2 + ((idx - 30) / 2) % 2
+    let blob := deepDoc d
+    { tags := [s!"deep={d}", s!"via={via}"], model := malformedModel via blob, spec := "ok", args := [toString via, hexRle blob] }
 
-def jsonbAlias : Family := { name := "jsonb_alias", gen := aliasGen, eval := malformedEval, fixed := 30 }
+def jsonbAlias : Family := { name := "jsonb_alias", gen := aliasGen, eval := malformedEval, fixed := 34 }
 
 end Driver.Fam
